@@ -8,8 +8,9 @@
       - periodic_reader.go run (tick, flush), collectAndExport, collect, ForceFlush, Shutdown,
       - pipeline.go        produce (callback errors are joined, the aggregations are still
                            computed and the error is returned with the data),
-    including the behaviour recorded as finding F-C02-1: PeriodicReader.collectAndExport /
-    Shutdown skip the export when collect returned an error, after the delta state was cleared.
+    after fix b162dd7: collectAndExport exports what the collection produced also when a callback
+    reported an error; PeriodicReader.Shutdown still skips the export of its final collection in
+    that case, after the delta state was cleared (residual of finding F-C02-1).
     The aggregator itself is Lib/MetricsModel.v.
 
     Part 2 (interleavings): a labelled transition system with any number of recording
@@ -25,33 +26,35 @@ Definition scfg (rc : rcfg) : aggcfg :=
   {| a_op := OpAdd; a_pre := false; a_temp := if r_delta rc then Delta else Cumulative |}.
 
 (** ** Part 1: sequential histories *)
-Record sst := { s_agg : agg; s_down : bool; s_err : bool }.
+(** [s_any]: some aggregator of this reader's pipeline has something to report (a delta pipeline is
+    emptied by every collection) *)
+Record sst := { s_agg : agg; s_down : bool; s_err : bool; s_any : bool }.
 
-Definition sinit : sst := {| s_agg := new_agg 0; s_down := false; s_err := false |}.
+Definition sinit : sst := {| s_agg := new_agg 0; s_down := false; s_err := false; s_any := false |}.
 
 (** one step of stream (r, i): new state, deliveries (at most one), return code (E_NA = not a call on r).
     Which calls attempt a collection, whether its result is delivered and what the call returns is
     [Spec.attempt] (the reader API as implemented by manual_reader.go / periodic_reader.go:
-    Collect fills the caller's rm even when produce reports a callback error; collectAndExport and
-    Shutdown export only when collect returned no error).  What the model adds is what happens to the
+    Collect fills the caller's rm even when produce reports a callback error; collectAndExport
+    exports what was produced even then, Shutdown exports only when collect returned no error).  What the model adds is what happens to the
     aggregator: every attempted collection runs the aggregation (produce computes all aggregations
     before the error is looked at), so a skipped delivery has already reset a delta sum. *)
 Definition sstep (rc : rcfg) (r : nat) (i : inst) (s : sst) (o : op) : sst * list points * N :=
   match o with
   | Add i' k v =>
       if Nat.eqb i' i
-      then ({| s_agg := measure (scfg rc) k [v] (s_agg s); s_down := s_down s; s_err := s_err s |}, [], E_NA)
-      else (s, [], E_NA)
-  | SetErr b => ({| s_agg := s_agg s; s_down := s_down s; s_err := b |}, [], E_NA)
+      then ({| s_agg := measure (scfg rc) k [v] (s_agg s); s_down := s_down s; s_err := s_err s; s_any := true |}, [], E_NA)
+      else ({| s_agg := s_agg s; s_down := s_down s; s_err := s_err s; s_any := true |}, [], E_NA)
+  | SetErr b => ({| s_agg := s_agg s; s_down := s_down s; s_err := b; s_any := s_any s |}, [], E_NA)
   | _ =>
-      match attempt rc r (s_down s) (s_err s) o with
-      | (CNone, down', c) => ({| s_agg := s_agg s; s_down := down'; s_err := s_err s |}, [], c)
+      match attempt rc r (s_down s) (s_err s) (s_any s) o with
+      | (CNone, down', c) => ({| s_agg := s_agg s; s_down := down'; s_err := s_err s; s_any := s_any s |}, [], c)
       | (CDelivered, down', c) =>
           let '(out, a') := collect (scfg rc) 0 (s_agg s) in
-          ({| s_agg := a'; s_down := down'; s_err := s_err s |}, [o_points out], c)
+          ({| s_agg := a'; s_down := down'; s_err := s_err s; s_any := next_ad rc (s_any s) |}, [o_points out], c)
       | (CDropped, down', c) =>
           let '(out, a') := collect (scfg rc) 0 (s_agg s) in
-          ({| s_agg := a'; s_down := down'; s_err := s_err s |}, [], c)
+          ({| s_agg := a'; s_down := down'; s_err := s_err s; s_any := next_ad rc (s_any s) |}, [], c)
       end
   end.
 
